@@ -290,23 +290,49 @@ func TestC06_Grid(t *testing.T) {
 
 func TestC06_Random(t *testing.T) {
 	cov.Rule(c06Rule)
-	k := 0
-	rapidCheck(t, func(rt *rapid.T) {
-		l := gen.Lang().Draw(rt, "lang")
-		n := gen.Count().Draw(rt, "n")
-		e := gen.EntropyOfSize(n/3*4).Draw(rt, "stream-head")
-		data := append(e.Bytes, rapid.SliceOfN(rapid.Byte(), 1, 9).Draw(rt, "stream-tail")...)
-		ev := rapid.SliceOfN(rapid.Custom(func(t *rapid.T) readEvent {
-			return readEvent{
-				K:   rapid.OneOf(rapid.IntRange(0, 3), rapid.IntRange(0, 40), rapid.Just(1)).Draw(t, "k"),
-				Err: rapid.SampledFrom([]string{"", "", "", "", "", "", "", "", "", "EOF", "UnexpectedEOF", "custom", "EAGAIN", "timeout"}).Draw(t, "err"),
-			}
-		}), 0, 40).Draw(rt, "events")
-		c := &readerCase{Lang: l.Name(), N: n, Data: data, Events: ev, Shape: "random/" + e.Shape}
-		c06Record(c)
-		if k++; k%997 == 1 {
-			cov.Sample("c06.reader", c)
+	rapidCheck(t, c06RandomProp)
+}
+
+var c06RandomPropK int
+
+// c06RandomProp is the rapid property behind the test above and the native fuzz target below.
+func c06RandomProp(rt *rapid.T) {
+	l := gen.Lang().Draw(rt, "lang")
+	n := gen.Count().Draw(rt, "n")
+	e := gen.EntropyOfSize(n/3*4).Draw(rt, "stream-head")
+	data := append(e.Bytes, rapid.SliceOfN(rapid.Byte(), 1, 9).Draw(rt, "stream-tail")...)
+	ev := rapid.SliceOfN(rapid.Custom(func(t *rapid.T) readEvent {
+		return readEvent{
+			K:   rapid.OneOf(rapid.IntRange(0, 3), rapid.IntRange(0, 40), rapid.Just(1)).Draw(t, "k"),
+			Err: rapid.SampledFrom([]string{"", "", "", "", "", "", "", "", "", "EOF", "UnexpectedEOF", "custom", "EAGAIN", "timeout"}).Draw(t, "err"),
 		}
-		judge(rt, "c06.reader", c06Check, c)
-	})
+	}), 0, 40).Draw(rt, "events")
+	// at most two empty reads in a row: (0, nil) is legal but "discouraged" by io.Reader, and an
+	// implementation that gives up on a source making no progress does not break the property
+	zeros := 0
+	kept := ev[:0]
+	for _, x := range ev {
+		if x.K == 0 && x.Err == "" {
+			if zeros++; zeros > 2 {
+				continue
+			}
+		} else {
+			zeros = 0
+		}
+		kept = append(kept, x)
+	}
+	ev = kept
+	c := &readerCase{Lang: l.Name(), N: n, Data: data, Events: ev, Shape: "random/" + e.Shape}
+	c06Record(c)
+	if c06RandomPropK++; c06RandomPropK%997 == 1 {
+		cov.Sample("c06.reader", c)
+	}
+	judge(rt, "c06.reader", c06Check, c)
+}
+
+// FuzzC06 drives the same property coverage-guided (thorough tier): the fuzzer's bytes are
+// rapid's source of choices.
+func FuzzC06(f *testing.F) {
+	cov.Rule(c06Rule)
+	f.Fuzz(rapid.MakeFuzz(c06RandomProp))
 }
